@@ -82,7 +82,7 @@ class FixWrite(Case):
             return cs
         nm = '_'.join((sp[0][0] + '_'.join(str(x).replace('-', 'm') for x in sp[1:])) for sp in specs)
         Case.__init__(s, f'fw{kind[:3]}_{SHORT[T]}_{"x".join(map(str, shape))}_{nm}_{OPN[op]}', [a] + extra, k, ' '.join(lines), desc=f'A({call}) {op} {fr} on {shape} {T}', pre=pre)
-        s.dom = 'uf' if T in FT else 'bits'; s.uf_int = T in IT
+        s.dom = ('real' if kind == 'matvec' else 'uf') if T in FT else 'bits'; s.uf_int = T in IT
         if T in FT and op == '/=' and kind == 'scalar': s.alt_ref_src = ' '.join(l.replace('/= x[0]', f'*= (({T})1/x[0])') for l in lines)
 
 
@@ -126,7 +126,7 @@ def cases(tier, cfg, seed):
                 if tier == 'quick' and (N, n) != (9, 4): kinds = ['tensor']
                 if tier == 'quick' and (N, n) != (9, 4) and op in ('*=', '/=') and T in IT: continue
                 for kind in kinds: add(DynWrite(T, (N,), (n,), op, kind))
-        if isf: add(DynWrite(T, (9,), (3,), '+=', 'matvec')); add(DynWrite(T, (9,), (4,), '=', 'matvec'))
+        if isf: add(FixWrite(T, (9,), [fs(1, 7, 2)], '+=', 'matvec')); add(FixWrite(T, (9,), [fs(2, 6)], '=', 'matvec')); add(FixWrite(T, (9,), [fs(0, 8, 2)], '-=', 'matvec'))
         for shape, osh in (([((4, 9), (2, 4))] if (T == 'double' and cfg.isa == 'avx2') else []) if tier == 'quick' else [((4, 9), (2, 4)), ((5, 5), (3, 2)), ((3, 8), (3, 8)), ((4, 9), (4, 3))]):
             for op in (('=',) if tier == 'quick' else OPS):
                 for kind in ('tensor', 'scalar'): add(DynWrite(T, shape, osh, op, kind))
